@@ -114,7 +114,8 @@ class Ctx:
             return
         deadline = self.t0 + self.seconds * frac
         for i in range(n):
-            if time.monotonic() > deadline and i >= self.min_cases:
+            now = time.monotonic()
+            if now > deadline and (i >= self.min_cases or now > self.t0 + 3 * self.seconds + 30):
                 self.timed_out = True
                 break
             self.case_index = i
@@ -227,7 +228,7 @@ def run_worker(prop, tier, seed, worker, nworkers, out, only_case=None):
     mod = load_module(prop)
     n, s = budget_for(mod, tier)
     ctx = Ctx(prop, tier, seed, worker, nworkers, n, s, only_case)
-    ctx.min_cases = getattr(mod, "MIN_CASES", {}).get(tier, 0)
+    ctx.min_cases = getattr(mod, "MIN_CASES", {}).get(tier, 20)  # default: 20 cases per worker even when start-up ate the time budget
     err = None
     try:
         mod.run(ctx)
